@@ -10,19 +10,19 @@ import "verifh/lib"
 // (ResolveCurrentBlockGotosWithParentBlock lowers the CLOSE register block by block), a break is
 // revisited when the blocks it leaves end (resolvePendingBreaks), a backward goto is patched when
 // its label is found, return and errors close at run time. The shape therefore draws
-//   * the outer loop (numeric for / while with a counter), optionally inside a local function;
-//   * 2..4 nested levels (do / if / one-pass numeric for / repeat ... until true), each with or
+//   - the outer loop (numeric for / while with a counter), optionally inside a local function;
+//   - 2..4 nested levels (do / if / one-pass numeric for / repeat ... until true), each with or
 //     without a captured local (sometimes two) and with or without uncaptured padding locals that
 //     shift the registers; the closures of a level increment the captured locals of their own AND of
 //     enclosing levels (shared cells);
-//   * the exit, taken in one chosen iteration from the innermost level: forward goto to a label
+//   - the exit, taken in one chosen iteration from the innermost level: forward goto to a label
 //     after the loop, forward goto to a label at the end of an intermediate level (a multi-level
 //     `continue`: the next iteration reuses the registers while the old closures are alive), break,
 //     return, error (caught by pcall around the function), or a backward goto to a label in front of
 //     the captured local of an intermediate level;
-//   * optionally the `late` layout: the closures follow the exit in the text and run before it
+//   - optionally the `late` layout: the closures follow the exit in the text and run before it
 //     (reached through a backward goto), so at the exit statement no block is known to be captured;
-//   * afterwards fresh locals and a clobber call reuse the registers, every closure is called twice
+//   - afterwards fresh locals and a clobber call reuse the registers, every closure is called twice
 //     (reads and writes through the cells) and the fresh locals are emitted (a stale open upvalue
 //     would overwrite them / read them).
 func (g *Gen) nestedScopeExit(d int) []Stmt {
@@ -30,8 +30,9 @@ func (g *Gen) nestedScopeExit(d int) []Stmt {
 	g.use("w5-nested-scope-exit")
 	fs, i, lim := g.fresh("xf"), g.fresh("xi"), float64(g.R.Range(1, 3))
 	nlev := g.R.Range(2, 4)
-	exit := g.R.Pick(34, 18, 14, 10, 10, 14) // goto out, goto mid (continue), break, return, error, backward goto
-	late := exit != 5 && g.R.Chance(22)
+	exit := g.R.Pick(30, 16, 18, 10, 10, 16) // goto out, goto mid (continue), break, return, error, backward goto
+	// late: at the exit statement no block is known to be captured yet (decided when the blocks end)
+	late := g.R.Chance([]int{35, 35, 45, 15, 15, 30}[exit])
 	inFn := exit == 3 || exit == 4 || g.R.Chance(35)
 	names := []string{"goto-out", "goto-mid", "break", "return", "error", "goto-back"}
 	g.use("w5-nested-exit-" + names[exit])
@@ -49,6 +50,9 @@ func (g *Gen) nestedScopeExit(d int) []Stmt {
 	ncap := 0
 	for k := range levels {
 		lv := &level{kind: g.R.Pick(35, 30, 20, 15)}
+		if exit == 2 && g.R.Chance(70) { // a break is caught by the nearest loop: mostly plain blocks around it
+			lv.kind = g.R.Intn(2)
+		}
 		if g.R.Chance(78) || (k == nlev-1 && ncap < 2) || (k == nlev-2 && ncap < 1) {
 			lv.caps = append(lv.caps, g.fresh("xc"))
 			if g.R.Chance(20) {
